@@ -20,6 +20,9 @@ type LoopC struct {
 	Inv       []*Clause
 	Decreases *Expr
 	Unroll    int
+	// KeepsOld ("keeps old objects"): the loop writes only objects allocated during the function; every
+	// object that existed at function entry keeps its contents (assumed at the head, proved at back edges)
+	KeepsOld bool
 }
 
 type AtClause struct {
@@ -40,6 +43,8 @@ type Contract struct {
 	Ensures  []*Clause
 	Assigns  []*Expr
 	Allocates []*Expr
+	Ignores  map[string]bool // "<callee>#<label>": postconditions of callees NOT assumed inside this function (keeps quantified facts that only cause matching loops out of its queries)
+	Trusts   []*Clause // postconditions callers may assume although the function's own proof does NOT establish them (listed as assumptions)
 	AssignsAll bool
 	Pure     bool
 	Inline   bool
@@ -55,6 +60,7 @@ type Contract struct {
 	Decreases *Expr
 	Using    []string
 	Lets     []*Clause // let name = expr (Label = name), evaluated in the pre-state
+	Dead     map[string]bool // cover labels (return3, ...) that are expected to be unreachable: dead code in the source
 	File     string
 }
 
@@ -115,7 +121,7 @@ func newDB() *ContractDB {
 
 var subKeywords = map[string]bool{"arith": true, "requires": true, "assumes": true, "allocates": true, "ensures": true, "assigns": true, "pure": true, "inline": true,
 	"trusted": true, "loop": true, "invariant": true, "decreases": true, "unroll": true, "assert": true, "check": true, "assume": true, "replay": true,
-	"nosafety": true, "abstract": true, "using": true, "let": true, "opaque": true}
+	"nosafety": true, "abstract": true, "using": true, "let": true, "opaque": true, "keeps": true, "dead": true, "trusts": true, "ignores": true}
 var topKeywords = map[string]bool{"func": true, "spec": true, "macro": true, "lemma": true, "axiom": true, "ghost": true, "const": true, "global": true, "evalconst": true, "onalloc": true, "pkgframe": true}
 
 // collect //@ lines of a file, joined into logical clauses.
@@ -464,6 +470,18 @@ func (db *ContractDB) loadFile(pkg *packages.Package, f *ast.File, fname string)
 			case "requires":
 				lb, ex := splitLabel(rest)
 				cur.Requires = append(cur.Requires, &Clause{Label: lb, E: db.mustExpr(ex, where)})
+			case "ignores":
+				for _, it := range splitTop(rest, ',') {
+					if cur.Ignores == nil {
+						cur.Ignores = map[string]bool{}
+					}
+					cur.Ignores[strings.TrimSpace(it)] = true
+				}
+			case "trusts":
+				// like ensures for callers, but not an obligation of the function itself: an explicitly
+				// unchecked part of an otherwise verified contract
+				lb, ex := splitLabel(rest)
+				cur.Trusts = append(cur.Trusts, &Clause{Label: lb, E: db.mustExpr(ex, where)})
 			case "ensures":
 				lb, op, ex := splitLabelOpaque(rest)
 				cur.Ensures = append(cur.Ensures, &Clause{lb, db.mustExpr(ex, where), op})
@@ -514,6 +532,22 @@ func (db *ContractDB) loadFile(pkg *packages.Package, f *ast.File, fname string)
 				}
 				lb, ex := splitLabel(rest)
 				curLoop.Inv = append(curLoop.Inv, &Clause{Label: lb, E: db.mustExpr(ex, where)})
+			case "dead":
+				// dead <cover label> "<why>": that point (e.g. return5) is unreachable by the code's own logic; its
+				// reachability cover is then expected to be unsat and is not reported as vacuity
+				fs2 := strings.Fields(rest)
+				if len(fs2) >= 1 {
+					if cur.Dead == nil {
+						cur.Dead = map[string]bool{}
+					}
+					cur.Dead[fs2[0]] = true
+				}
+			case "keeps":
+				if curLoop != nil && strings.TrimSpace(rest) == "old objects" {
+					curLoop.KeepsOld = true
+				} else {
+					db.errf("%s: expected `keeps old objects` inside a loop block", where)
+				}
 			case "unroll":
 				if curLoop != nil {
 					curLoop.Unroll, _ = strconv.Atoi(rest)
